@@ -306,9 +306,15 @@ def predict(ok_, ins, iargs, kinds, vals, existing=False):
             res.add("ERR")
         else:
             parts = ["STACK"] + [show(o.cells, p, subs) for p in stack_of(o)]
+            stored = ["STORE", iargs[0], "Int:7"] if existing else []     # what the variable holds afterwards (the harness reads it back)
             for e in o.effects:
                 if e[0] == "register_variable_local":
-                    parts += ["STORE", e[1][0].data.strip('"'), show(o.cells, e[1][1], subs)]
+                    stored = ["STORE", e[1][0].data.strip('"'), show(o.cells, e[1][1], subs)]
+            if ins == "unwrap_into":
+                parts += stored
+            for e in o.effects:
+                if e[0] == "register_variable_local":
+                    continue
                 elif e[0] == "signal":
                     v = e[1][0]
                     parts += ["SIGNAL", "%s:%d" % (v.variant, z3.simplify(v.fields[0].e).as_signed_long())]
